@@ -20,7 +20,9 @@ Consume == l <= Len(Log) /\ l' = l + 1
 Stutter == UNCHANGED vars
 Ev(b) == b = TRUE
 Reading(t) == pc[t] \in {"start", "g0", "fb", "gc1", "gc2", "gc3", "gc4", "lv1", "permld", "lv2", "g_val", "g_fc", "r_fc0", "lock", "done",
-                          "s_enter", "s_ret", "s_next", "s_perm", "s_val", "s_chk", "s_rec", "s_nv", "s_fin"}
+                          "s_enter", "s_ret", "s_next", "s_perm", "s_val", "s_chk", "s_rec", "s_nv", "s_fin",
+                          "io_lv1", "io_p", "io_lv2", "io_stack", "in_top", "in_next", "in_ent", "ck1", "ck2", "ck3", "ck4", "in_nb1", "in_nb2", "in_nb3", "in_nb4",
+                          "ir_fb", "ir_root", "ir_rl", "ir_rld", "ir_arr", "i_ret"}
 Owner(t) == ~Reading(t)
 \* objects nobody else can see yet: B3 until it is linked behind the split border, P2 until the root pointer is stored
 Private(n) == (n = 3 /\ \E t \in Threads : pc[t] \in {"s3", "s3l"}) \/ (n = 5 /\ \E t \in Threads : pc[t] \in {"n1c", "n2", "n3", "n4"})
@@ -47,6 +49,7 @@ TRootLoad == /\ Consume /\ E.e = "root_load" /\ Ev(rootp = E.n)
                 ELSE IF pc[t] = "r_rl2" /\ E.n = loc[t].b THEN RRl2(t)
                 ELSE IF pc[t] = "s_rl2" /\ E.n = loc[t].b THEN SRl2(t)
                 ELSE IF pc[t] = "fb" /\ Op(t).op = "put" THEN G0Again(t)
+                ELSE IF pc[t] \in {"ir_rl", "ir_rld"} THEN IRRl(t) \/ IRRld(t)
                 ELSE Ev(Owner(t)) /\ Stutter
 TVerLoad == /\ Consume /\ E.e = "ver_load"
             /\ LET t == E.t IN
@@ -54,8 +57,9 @@ TVerLoad == /\ Consume /\ E.e = "ver_load"
                ELSE /\ Ev(VerOf(E.n) = LVer(E))
                     /\ IF Owner(t) \/ pc[t] = "lock" \/ ~Stable(LVer(E)) THEN Stutter
                        ELSE \/ (FB(t) /\ Ev(loc[t].root = E.n)) \/ (GC3(t) /\ Ev(loc[t].child = E.n)) \/ (GC4(t) /\ Ev(loc[t].cur = E.n))
-                            \/ ((LV1(t) \/ LV2(t) \/ GFc(t) \/ RFc0(t) \/ SChk(t) \/ SFin(t)) /\ Ev(loc[t].b = E.n))
-                            \/ (SNv(t) /\ Ev(loc[t].nxt = E.n))
+                            \/ ((LV1(t) \/ LV2(t) \/ GFc(t) \/ RFc0(t) \/ SChk(t) \/ SFin(t) \/ IOLv1(t) \/ IOLv2(t) \/ CK1(t) \/ CK3(t)) /\ Ev(loc[t].b = E.n))
+                            \/ ((SNv(t) \/ INNb2(t)) /\ Ev(loc[t].nxt = E.n))
+                            \/ (IRRoot(t) /\ Ev(loc[t].stroot = E.n))
 \* the key search follows the n_keys load without a hook: the child index is known from the child load that comes next
 TNkeysLoad == /\ Consume /\ E.e = "nkeys_load"
               /\ IF Owner(E.t) THEN Stutter ELSE Ev(loc[E.t].cur = E.n) /\ GC1(E.t)
@@ -64,16 +68,21 @@ TChildLoad == /\ Consume /\ E.e = "child_load" /\ Ev(it[E.n].ch[E.i] = E.c)
 TPermLoad == /\ Consume /\ E.e = "perm_load"
              /\ IF Private(E.n) THEN Stutter
                 ELSE /\ Ev(bd[E.n].perm = E.perm)
-                     /\ IF Owner(E.t) THEN Stutter ELSE (PermLd(E.t) \/ SPermS(E.t)) /\ Ev(loc[E.t].b = E.n)
+                     /\ IF Owner(E.t) THEN Stutter
+                        ELSE \/ ((PermLd(E.t) \/ SPermS(E.t) \/ IOP(E.t) \/ IOStack(E.t) \/ CK2(E.t) \/ CK4(E.t) \/ IRArr(E.t)) /\ Ev(loc[E.t].b = E.n))
+                             \/ (INNb3(E.t) /\ Ev(loc[E.t].nxt = E.n))
 TLvLoad == /\ Consume /\ E.e = "lv_load"
            /\ IF Owner(E.t) THEN Stutter
               ELSE /\ Ev(bd[E.n].lv[E.slot] = E.w /\ loc[E.t].b = E.n)
                    /\ IF pc[E.t] = "s_chk" THEN Ev(loc[E.t].idx = E.slot) /\ Stutter      \* second load of the slot word (get_next_layer) in scan_border
-                      ELSE (GVal(E.t) /\ Ev(loc[E.t].idx = E.slot)) \/ (SVal(E.t) /\ Ev(loc[E.t].snap[loc[E.t].si] = E.slot))
+                      ELSE \/ (GVal(E.t) /\ Ev(loc[E.t].idx = E.slot)) \/ (SVal(E.t) /\ Ev(loc[E.t].snap[loc[E.t].si] = E.slot))
+                           \/ (INEnt(E.t) /\ Ev(loc[E.t].strank <= Len(loc[E.t].perm) /\ loc[E.t].perm[loc[E.t].strank] = E.slot))
 TPrevLoad == /\ Consume /\ E.e = "prev_load" /\ Ev(bd[E.n].prev = E.x)
-             /\ IF pc[E.t] = "r_prev" THEN RPrev(E.t) /\ Ev(loc[E.t].b = E.n) ELSE Ev(Owner(E.t)) /\ Stutter
+             /\ IF pc[E.t] = "r_prev" THEN RPrev(E.t) /\ Ev(loc[E.t].b = E.n)
+                ELSE IF pc[E.t] = "in_nb4" THEN INNb4(E.t) /\ Ev(loc[E.t].nxt = E.n)
+                ELSE Ev(Owner(E.t)) /\ Stutter
 TNextLoad == /\ Consume /\ E.e = "next_load"
-             /\ IF Owner(E.t) THEN Stutter ELSE SNext(E.t) /\ Ev(loc[E.t].b = E.n /\ bd[E.n].next = E.x)
+             /\ IF Owner(E.t) THEN Stutter ELSE (SNext(E.t) \/ INNext(E.t) \/ INNb1(E.t)) /\ Ev(loc[E.t].b = E.n /\ bd[E.n].next = E.x)
 TParentLoad == /\ Consume /\ E.e = "parent_load" /\ Ev(ParentOf(E.n) = E.p)
                /\ LET t == E.t IN
                   IF pc[t] = "r_lp" /\ E.n = loc[t].b THEN RLp(t)
@@ -163,12 +172,13 @@ TOther == Consume /\ E.e = "other_store" /\ Ev(pc[E.t] \in {"p_slot", "smove", "
 TRet == /\ Consume /\ E.e = "ret" /\ Stutter
         /\ Ev(pc[E.t] = "done" /\ Len(res[E.t]) = 1)
         /\ LET r == res[E.t][1] IN Ev(r.st = E.st /\ (r.op = "get" => r.w = E.w)
-                                       /\ (r.op = "scan" => r.w = [i \in 1..Len(E.w) |-> <<E.w[i][1], E.w[i][2]>>] /\ E.nvn >= 1))
+                                       /\ (r.op \in {"scan", "iscan"} => r.w = [i \in 1..Len(E.w) |-> <<E.w[i][1], E.w[i][2]>>] /\ E.nvn >= 1))
 TEnd == Consume /\ E.e = "end" /\ Stutter /\ Ev(AllDone)
 \* silent: re-validation under the lock that goes on without a shared write
 TSilent == /\ l <= Len(Log) /\ UNCHANGED l
            /\ \E t \in Threads : \/ (pc[t] = "chk" /\ Chk(t) /\ pc'[t] \in {"r_clear", "p_set"})
                                  \/ SEnter(t) \/ SRec(t) \/ SRet(t)
+                                 \/ INTop(t) \/ IRFb(t) \/ IRet(t) \/ (INEnt(t) /\ loc[t].strank > Len(loc[t].perm)) \/ (IOLv1(t) /\ loc[t].vfb.del /\ loc[t].vfb.root)
 TNext == TReset \/ TInv \/ TRootLoad \/ TVerLoad \/ TNkeysLoad \/ TChildLoad \/ TPermLoad \/ TLvLoad \/ TPrevLoad \/ TNextLoad \/ TParentLoad
          \/ TLock \/ TFlag \/ TVerStore \/ TUnlock \/ TLvStore \/ TPermStore \/ TPrevStore \/ TNextStore \/ TNkeysStore \/ TChildStore \/ TPOther
          \/ TRootLock \/ TRootUnlock \/ TRootStore \/ TParentStore \/ TOther \/ TRet \/ TEnd \/ TSilent
